@@ -513,3 +513,18 @@ def erf_over_x_series(R, eps_bits=200):
         if t < Fr(1, 1 << eps_bits) and R * R / (k + 1) < Fr(1, 2):
             break
     return Series(Poly(c), _geom_tail(t * 2, R * R / (k + 1)), R)
+
+
+def expm1_over_x_series(R, eps_bits=200):
+    """(e^x - 1)/x = sum x^k/(k+1)!"""
+    R = Fr(R)
+    c, k = [], 0
+    f = 1
+    while True:
+        c.append(Fr(1, f))
+        k += 1
+        f *= (k + 1)
+        t = R ** k / f
+        if t < Fr(1, 1 << eps_bits) and R / (k + 2) < Fr(1, 2):
+            break
+    return Series(Poly(c), _geom_tail(t, R / (k + 2)), R)
